@@ -86,6 +86,9 @@ func concOp(kind int, seed int64) string {
 		return fmt.Sprint(parts, a, err != nil)
 	case 4: // batch encoder (starts goroutines itself)
 		txt := randText(rr, 1+rr.Intn(300))
+		if rr.Intn(2) == 0 { // a text every candidate can encode
+			txt = strings.Repeat("plain ascii text 0123456789 ", 1+rr.Intn(12))
+		}
 		proto := []string{"CMPP", "SMPP"}[rr.Intn(2)]
 		var pdc []datacoding.ProtocolDataCoding
 		for _, v := range batchValid[proto] {
@@ -168,6 +171,9 @@ func runConc(c Case, tr *Tracer) {
 	}
 	prog := make([][]opd, ng)
 	tr.emit(Ev{"ev": "Start", "site": "conc"})
+	// counted from here: the batch encoder starts goroutines even when it is called alone, and the
+	// detector reports each distinct race only once per process
+	racesBefore := countRaceReports()
 	opID := 0
 	ids := make([][]int, ng)
 	for g := 0; g < ng; g++ {
@@ -179,7 +185,6 @@ func runConc(c Case, tr *Tracer) {
 			tr.emit(Ev{"ev": "Seq", "op": opID, "kind": o.kind, "res": digest(concOp(o.kind, o.seed)), "site": fmt.Sprintf("op%d", o.kind)})
 		}
 	}
-	racesBefore := countRaceReports()
 	old := runtime.GOMAXPROCS(caseInt(c, "procs"))
 	results := make([][]string, ng)
 	var wg sync.WaitGroup
